@@ -1,14 +1,16 @@
 (* Correspondence case and checker for C10 (deterministic sampler / stress-relief sampling). *)
 From Refinery Require Export Lib.Base Model.Determ.
-From Refinery Require Gen.GenC10.
 
 Inductive kind := KDet | KStress.
 
 (* one (trace ID, rate) observation *)
 Record obs := {
   o_crash : bool;          (* Start / UpdateFromConfig panicked or returned an error *)
-  o_rates : list Z;        (* rate returned by every call (instances, trace variants, repeats) *)
-  o_keeps : list bool      (* keep flag returned by every call *)
+  o_rates : list Z;        (* every distinct rate returned over all evaluations of this (trace ID, rate):
+                              two instances, traces with the same ID and other content, repeated calls,
+                              and (stress relief) one object reloaded down and up through all the rates
+                              of the case; the first evaluation's value comes first *)
+  o_keeps : list bool      (* every distinct keep flag returned, likewise *)
 }.
 
 (* one trace ID: the hash the harness computed for it and one obs per rate of the case *)
@@ -24,7 +26,7 @@ Record case := {
 }.
 
 Definition MAXof (k : kind) : Z :=
-  match k with KDet => GenC10.det_max | KStress => GenC10.stress_max end.
+  match k with KDet => DET_MAX | KStress => STRESS_MAX end.
 
 (* the model's answer; None = no answer (crash) *)
 Definition model (k : kind) (rate h : Z) : option (Z * bool) :=
@@ -69,7 +71,7 @@ Definition row_agrees (k : kind) (rates : list Z) (r : row) : bool :=
   zip_all (obs_agrees k (r_h r)) rates (r_obs r).
 
 Definition model_agrees (c : case) : bool :=
-  String.eqb (c_salt c) GenC10.det_salt && N.eqb (c_seed c) GenC10.stress_seed &&
+  String.eqb (c_salt c) DET_SALT && N.eqb (c_seed c) STRESS_SEED &&
   forallb (row_agrees (c_kind c) (c_rates c)) (c_rows c).
 
 (* ---- property monitor on the implementation's observations ---- *)
